@@ -39,4 +39,114 @@ theorem all_rows (p : Cls → Bool) (tbl : List (Nat × Cls)) (hi : Nat)
     (h : allIn p tbl 0 hi = true) (n : Nat) (hn : n ≤ hi) : p (lookup tbl n) = true :=
   allIn_sound p tbl 0 hi n h (Nat.zero_le _) hn
 
+/-! ### prefix membership is an interval; interval tables equal membership -/
+
+/-- the network address has no host bits -/
+def aligned (bits : Nat) (net : Nat × Nat) : Bool := net.1 % 2 ^ (bits - net.2) == 0
+
+/-- **prefix membership lemma.** For an aligned network, `addr & netmask == network_address` holds
+    exactly for the `2^(bits-prefixlen)` addresses starting at the network address. -/
+theorem inNet_iff (bits : Nat) (net : Nat × Nat) (n : Nat) (ha : aligned bits net = true) :
+    inNet bits net n = true ↔ (net.1 ≤ n ∧ n < net.1 + 2 ^ (bits - net.2)) := by
+  simp only [inNet, aligned, beq_iff_eq] at *
+  generalize hk : 2 ^ (bits - net.2) = k at *
+  have hkpos : 0 < k := by rw [← hk]; exact Nat.two_pow_pos _
+  have hb := Nat.div_add_mod net.1 k
+  rw [ha] at hb
+  constructor
+  · intro h
+    have h1 := Nat.div_mul_le_self n k
+    have h2 := Nat.div_add_mod n k
+    have h3 := Nat.mod_lt n hkpos
+    rw [Nat.mul_comm] at h2
+    omega
+  · intro ⟨h1, h2⟩
+    have hq : n / k = net.1 / k := by
+      apply Nat.div_eq_of_lt_le
+      · rw [Nat.mul_comm]; omega
+      · rw [Nat.add_mul, Nat.mul_comm]; omega
+    rw [hq, Nat.mul_comm]; omega
+
+/-- the network is disjoint from `[a, b]` or contains it -/
+def netUniform (bits : Nat) (a b : Nat) (net : Nat × Nat) : Bool :=
+  Nat.ble (net.1 + 2 ^ (bits - net.2)) a || Nat.blt b net.1 ||
+    (Nat.ble net.1 a && Nat.blt b (net.1 + 2 ^ (bits - net.2)))
+
+theorem inNet_const (bits : Nat) (net : Nat × Nat) (a b n : Nat) (ha : aligned bits net = true)
+    (hu : netUniform bits a b net = true) (h1 : a ≤ n) (h2 : n ≤ b) :
+    inNet bits net n = inNet bits net a := by
+  have e1 := inNet_iff bits net n ha
+  have e2 := inNet_iff bits net a ha
+  simp only [netUniform, Bool.or_eq_true, Bool.and_eq_true, Nat.ble_eq, Nat.blt_eq] at hu
+  generalize 2 ^ (bits - net.2) = k at *
+  cases hn : inNet bits net n <;> cases hx : inNet bits net a <;> simp_all <;> omega
+
+theorem inAny_const (bits : Nat) (nets : List (Nat × Nat)) (a b n : Nat)
+    (ha : nets.all (aligned bits) = true) (hu : nets.all (netUniform bits a b) = true)
+    (h1 : a ≤ n) (h2 : n ≤ b) : inAny bits nets n = inAny bits nets a := by
+  induction nets with
+  | nil => rfl
+  | cons x xs ih =>
+    simp only [List.all_cons, Bool.and_eq_true] at ha hu
+    simp only [inAny, List.any_cons] at ih ⊢
+    rw [inNet_const bits x a b n ha.1 hu.1 h1 h2, ih ha.2 hu.2]
+
+/-- every row of `tbl` that `[lo, hi]` meets is a stretch on which `uni` holds and whose class is
+    `spec` at its first address; `[lo, hi]` is covered by the table -/
+def rowsMatch (spec : Nat → Cls) (uni : Nat → Nat → Bool) : List (Nat × Cls) → Nat → Nat → Bool
+  | [], _, _ => false
+  | (h, c) :: rest, lo, hi =>
+    if lo ≤ h then
+      uni lo (if hi ≤ h then hi else h) && (spec lo == c) &&
+        (Nat.ble hi h || rowsMatch spec uni rest (h + 1) hi)
+    else rowsMatch spec uni rest lo hi
+
+theorem rowsMatch_sound (spec : Nat → Cls) (uni : Nat → Nat → Bool)
+    (huni : ∀ a b n, uni a b = true → a ≤ n → n ≤ b → spec n = spec a) :
+    ∀ (tbl : List (Nat × Cls)) (lo hi n : Nat),
+      rowsMatch spec uni tbl lo hi = true → lo ≤ n → n ≤ hi → lookup tbl n = spec n
+  | [], _, _, _, h, _, _ => by simp [rowsMatch] at h
+  | (h, c) :: rest, lo, hi, n, hall, hlo, hhi => by
+    unfold rowsMatch at hall
+    unfold lookup
+    by_cases h1 : lo ≤ h
+    · simp only [h1, if_true, Bool.and_eq_true, Bool.or_eq_true, Nat.ble_eq, beq_iff_eq] at hall
+      obtain ⟨⟨hu, hc⟩, hrest⟩ := hall
+      by_cases h2 : n ≤ h
+      · simp only [h2, if_true]
+        rw [← hc]
+        refine (huni lo _ n hu hlo ?_).symm
+        split <;> omega
+      · simp only [h2, if_false]
+        rcases hrest with h3 | h3
+        · omega
+        · exact rowsMatch_sound spec uni huni rest (h + 1) hi n h3 (by omega) hhi
+    · simp only [h1, if_false] at hall
+      have h2 : ¬ n ≤ h := by omega
+      simp only [h2, if_false]
+      exact rowsMatch_sound spec uni huni rest lo hi n hall hlo hhi
+
+def uniform4 (a b : Nat) : Bool :=
+  private4.all (netUniform 32 a b) && public4.all (netUniform 32 a b) && loopback4.all (netUniform 32 a b)
+
+def uniform6 (a b : Nat) : Bool :=
+  private6.all (netUniform 128 a b) && loopback6.all (netUniform 128 a b)
+
+theorem memberCls4_const
+    (hal : (private4.all (aligned 32) && public4.all (aligned 32) && loopback4.all (aligned 32)) = true)
+    (a b n : Nat) (hu : uniform4 a b = true) (h1 : a ≤ n) (h2 : n ≤ b) : memberCls4 n = memberCls4 a := by
+  simp only [uniform4, Bool.and_eq_true] at hu hal
+  simp only [memberCls4,
+    inAny_const 32 private4 a b n hal.1.1 hu.1.1 h1 h2,
+    inAny_const 32 public4 a b n hal.1.2 hu.1.2 h1 h2,
+    inAny_const 32 loopback4 a b n hal.2 hu.2 h1 h2]
+
+theorem memberCls6_const
+    (hal : (private6.all (aligned 128) && loopback6.all (aligned 128)) = true)
+    (a b n : Nat) (hu : uniform6 a b = true) (h1 : a ≤ n) (h2 : n ≤ b) : memberCls6 n = memberCls6 a := by
+  simp only [uniform6, Bool.and_eq_true] at hu hal
+  simp only [memberCls6,
+    inAny_const 128 private6 a b n hal.1 hu.1 h1 h2,
+    inAny_const 128 loopback6 a b n hal.2 hu.2 h1 h2]
+
 end MitmVerif.Lemmas.C22
